@@ -137,3 +137,69 @@ Section Check.
                           end) root
     end.
 End Check.
+
+(* ---- labelled variant: works for cyclic forests too ----------------------------------
+   Instead of computing the node summaries bottom-up (which needs a topological order), the
+   summaries are GIVEN (a certificate proposed by the harness) and only checked for local
+   consistency: every alternative of node k, evaluated with the labels of its children,
+   yields label k.  Every finite tree that unfolds from the forest then has the label of
+   its node as summary (by induction on the tree), whatever cycles the forest has. *)
+
+Inductive unfolds (F : forest) : nat -> tree -> Prop :=
+| u_term k y s e : In (ATerm y s e) (nth k F []) -> unfolds F k (TLeaf y s e)
+| u_nt k p s e cs ts :
+    In (ANT p s e cs) (nth k F []) -> unfolds_list F cs ts -> unfolds F k (TNode p s e ts)
+with unfolds_list (F : forest) : list nat -> list tree -> Prop :=
+| ul_nil : unfolds_list F [] []
+| ul_cons c cs t ts : unfolds F c t -> unfolds_list F cs ts -> unfolds_list F (c :: cs) (t :: ts).
+
+Section Labelled.
+  Variable g : grammar.
+  Variable tokok : N -> N -> N -> bool.
+  Variable sk : N -> N.
+  Variable strict : bool.
+
+  Definition onsum_eqb (a b : option nsum) : bool :=
+    match a, b with
+    | Some x, Some y => nsum_eqb x y
+    | _, _ => false
+    end.
+
+  (* labels : one summary per node; node k is consistent if all its alternatives evaluate to it *)
+  Definition node_consistent (labels : list (option nsum)) (k : nat) (n : pnode) : bool :=
+    forallb (fun a => onsum_eqb (fsum_alt g tokok sk strict labels a) (nth k labels None)) n.
+
+  Fixpoint nodes_consistent (labels : list (option nsum)) (k : nat) (ns : forest) : bool :=
+    match ns with
+    | [] => true
+    | n :: r => node_consistent labels k n && nodes_consistent labels (S k) r
+    end.
+
+  Variables (start pos0 in_len : N) (consume : bool).
+
+  (* all nodes but the root (the last one) are consistent; the root's alternatives are checked
+     one by one (they may have different spans when consume_input is off) *)
+  Definition forest_ok_labelled (F : forest) (labels : list (option nsum)) : bool :=
+    match rev F with
+    | [] => false
+    | root :: rbelow =>
+        nodes_consistent labels 0 (rev rbelow) &&
+        negb (match root with [] => true | _ => false end) &&
+        forallb (fun a => match fsum_alt g tokok sk strict labels a with
+                          | Some sm => root_ok sk start pos0 in_len consume sm
+                          | None => false
+                          end) root
+    end.
+End Labelled.
+
+(* full labelled mode (the root may take part in cycles): every node, the root included, is
+   consistent with its label and the root's label satisfies the root conditions *)
+Definition forest_ok_labelled_full (g : grammar) (tokok : N -> N -> N -> bool) (sk : N -> N)
+           (strict : bool) (start pos0 in_len : N) (consume : bool)
+           (F : forest) (labels : list (option nsum)) : bool :=
+  nodes_consistent g tokok sk strict labels 0 F &&
+  match nth (pred (length F)) labels None with
+  | Some sm => root_ok sk start pos0 in_len consume sm
+  | None => false
+  end &&
+  negb (Nat.eqb (length F) 0).
